@@ -30,6 +30,39 @@ pub fn vx_truncate_last_ascii(s: &mut String, n: usize)
     ensures final(s)@ == old(s)@.drop_last()
 { s.truncate(n) }
 
+// ---- quoting state of the list splitter, as the property statements define it (C01 / C03): a backslash outside single quotes escapes
+// the next char; ' " ` open a quote that only the same char closes; nothing inside quotes or escaped is an operator ----
+pub open spec fn lq(line: Seq<char>, n: int) -> (Seq<char>, bool)
+    decreases n
+{
+    if n <= 0 { (Seq::<char>::empty(), false) } else {
+        let p = lq(line, n - 1);
+        let c = line[n - 1];
+        if p.1 { (p.0, false) }
+        else if c == '\\' && p.0 != seq!['\''] { (p.0, true) }
+        else if c == '\'' || c == '"' || c == '`' {
+            if p.0.len() == 0 { (seq![c], false) } else if p.0 == seq![c] { (Seq::<char>::empty(), false) } else { (p.0, false) }
+        }
+        else { (p.0, false) }
+    }
+}
+// no operator / comment character occurs outside quotes and unescaped
+pub open spec fn no_active_operator(line: Seq<char>) -> bool {
+    forall|i: int| 0 <= i < line.len() && lq(line, i).0.len() == 0 && !lq(line, i).1 ==> #[trigger] line[i] != ';' && line[i] != '&' && line[i] != '|' && line[i] != '#'
+}
+pub proof fn lemma_lq_shape(line: Seq<char>, n: int)
+    ensures lq(line, n).0.len() == 0 || (lq(line, n).0.len() == 1 && (lq(line, n).0[0] == '\'' || lq(line, n).0[0] == '"' || lq(line, n).0[0] == '`')),
+    decreases n
+{
+    if n > 0 { lemma_lq_shape(line, n - 1); }
+}
+pub proof fn lemma_quote_lits()
+    ensures "'"@ == seq!['\''], "&"@ == seq!['&'], "|"@ == seq!['|'], ""@ == Seq::<char>::empty(),
+{
+    reveal_strlit("'"); reveal_strlit("&"); reveal_strlit("|"); reveal_strlit("");
+    assert("'"@ =~= seq!['\'']); assert("&"@ =~= seq!['&']); assert("|"@ =~= seq!['|']); assert(""@ =~= Seq::<char>::empty());
+}
+
 //@FN wrap_sep_string
 //@FN tokens_to_args
 //@FN tokens_to_line
@@ -48,9 +81,19 @@ parse_line = Fn(P, 'parse_line', ret='r',
     loops={0: Loop(invariant=[('C05.inv.count', 'count_chars == line@.len()')])},
 )
 
-line_to_cmds = Fn(P, 'line_to_cmds', ret='r',
+line_to_cmds = Fn(P, 'line_to_cmds', ret='r', strvars=('sep',),
     let_types={'result': 'Vec<String>'},
-    loops={0: Loop(invariant=[('C05.inv.len', 'len == line@.len()')])},
+    ensures=[('C01+C03.l2c.quoted_or_escaped_operators_never_split', 'no_active_operator(line@) ==> r@.len() <= 1')],
+    loops={0: Loop(invariant=[
+        ('C05.inv.len', 'len == line@.len()'),
+        ('C01+C03.inv.l2c.escape_state_is_the_specified_one', 'has_backslash == lq(line@, __I as int).1'),
+        ('C01+C03.inv.l2c.quote_state_is_the_specified_one',
+         '(lq(line@, __I as int).0.len() > 0 ==> sep@ == lq(line@, __I as int).0) && '
+         '(lq(line@, __I as int).0.len() == 0 ==> sep@.len() == 0 || ((sep@ == seq![\'&\'] || sep@ == seq![\'|\']) && !has_backslash '
+         '&& 0 < __I < line@.len() && line@[__I as int] == sep@[0] && line@[__I - 1] == sep@[0]))'),
+        ('C01+C03.inv.l2c.no_split_so_far', 'no_active_operator(line@) ==> result@.len() == 0 && (lq(line@, __I as int).0.len() == 0 ==> sep@.len() == 0)'),
+    ])},
+    hints={'loop-0-body-entry': 'lemma_quote_lits(); lemma_lq_shape(line@, __I as int); lemma_lq_shape(line@, __I + 1);'},
 )
 
 tokens_to_line = Fn(P, 'tokens_to_line', ret='r',
